@@ -281,6 +281,7 @@ def identical(a, b, st: St):
 def alloc(st: St, prefix: str, ty):
     """Allocate a fresh reference, distinct from everything allocated before."""
     r = smt.fresh_v(prefix)
+    smt.tick(r.decl().name())
     st.assume(z3.Not(smt.Alloc0(r)), r != smt.NONE, smt.SkFam(r) == 0)
     for o in st.fresh:
         st.assume(r != o)
@@ -476,6 +477,9 @@ def contains(container, item, st: St):
     raise Unsupported(f"`in` on type {ty}")
 
 
+KEY_TYPE_FACTS = [True]
+
+
 def type_facts(val, st: St | None = None):
     """Dynamic tag facts implied by the static type of a Val (assumed for parameters / typed reads)."""
     if not isinstance(val, Val):
@@ -493,6 +497,11 @@ def type_facts(val, st: St | None = None):
     if k == "seq":
         return [z3.Or(smt.is_list(t), smt.is_tuple(t))]
     if k == "dict":
+        if st is not None and val.ty[1] == STR and KEY_TYPE_FACTS[0]:
+            # static key type str: the keys present in the current heap are strings (type invariant of the declaration)
+            kk = z3.Const("tk", V)
+            mem = st.heap.c["dh"][t][kk]
+            return [smt.is_dict(t), smt.forall([kk], z3.Implies(mem, smt.is_str(kk)), patterns=[mem])]
         return [smt.is_dict(t)]
     if k == "set":
         return [smt.is_set(t)]
